@@ -213,3 +213,24 @@ Proof.
       rewrite N.shiftr_spec in Hy by lia. replace (n - (w - bits) + (w - bits))%N with n in Hy by lia.
       rewrite Hy. reflexivity.
 Qed.
+
+Lemma testbit_high (w a n : N) : (a < 2 ^ w)%N -> (w <= n)%N -> N.testbit a n = false.
+Proof.
+  intros Ha Hn. destruct (N.eq_dec a 0) as [->|Hnz]; [apply N.bits_0|]. apply N.bits_above_log2.
+  apply N.log2_lt_pow2; [lia|]. eapply N.lt_le_trans; [exact Ha|]. apply N.pow_le_mono_r; lia.
+Qed.
+
+(* comparing the leading bits after shifting both operands (how a mask comparison reads) *)
+Lemma shiftr_eq_iff (w bits a b : N) :
+  (bits <= w)%N -> (a < 2 ^ w)%N -> (b < 2 ^ w)%N ->
+  (N.shiftr a (w - bits) = N.shiftr b (w - bits) <-> same_top_bits w bits a b).
+Proof.
+  intros Hb Ha Hbb. unfold same_top_bits. split.
+  - intros H i Hi.
+    assert (Hx : N.testbit (N.shiftr a (w - bits)) (i - (w - bits)) = N.testbit (N.shiftr b (w - bits)) (i - (w - bits))) by (rewrite H; reflexivity).
+    rewrite !N.shiftr_spec in Hx by lia. replace (i - (w - bits) + (w - bits))%N with i in Hx by lia. exact Hx.
+  - intro H. apply N.bits_inj. intro n. rewrite !N.shiftr_spec by lia.
+    destruct (N.lt_ge_cases (n + (w - bits)) w) as [Hlt|Hge].
+    + apply H. lia.
+    + rewrite (testbit_high w a) by assumption. rewrite (testbit_high w b) by assumption. reflexivity.
+Qed.
